@@ -295,7 +295,9 @@ fn emit_alone_runs(uni: &AffUniverse, c: &AppCase, out: &mut String) {
     }
     for s in &secs {
         let rows: Vec<Tx> = c.rows.iter().filter(|t| &t.security == s).cloned().collect();
-        let res = run_app(&rows, &[], &c.inits);
+        // alone = this security's rows and ITS opening position only
+        let own_inits: Vec<(String, Decimal, Decimal)> = c.inits.iter().filter(|i| &i.0 == s).cloned().collect();
+        let res = run_app(&rows, &[], &own_inits);
         match &res {
             Ok(Ok(_)) => emit_result(uni, "alone", &res, out),
             Ok(Err(e)) => out.push_str(&format!("alone secabort {} {}\n", sec_num(s), oneline(e))),
